@@ -69,10 +69,15 @@ def _encode(num, d, enc):
         return f"{num}{d}", True
     if enc == 'upper':
         return f"{num}{d.upper()}", True
+    if enc == 'pad':
+        # digit string with leading zeros ('007'): the number is the same
+        return f"{num:03d}", False
+    if enc == 'pad-lower':
+        return f"{num:03d}{d}", True
     raise ValueError(enc)
 
 
-ENCODINGS = ('int', 'str', 'lower', 'upper')
+ENCODINGS = ('int', 'str', 'lower', 'upper', 'pad', 'pad-lower')
 SEC_ENCODINGS = ('int', 'str', 'str2')
 
 
@@ -297,13 +302,15 @@ def run_shard(shard, ctx):
         for t in range(0, 1000):
             for ns in 'ns':
                 for enc in ENCODINGS:
-                    ch = 'arg' if enc in ('int', 'str') else 'explicit-vs-default'
+                    ch = ('arg' if enc in ('int', 'str', 'pad')
+                          else 'explicit-vs-default')
                     _check_construct(ctx, rep, pytrs, t, ns, 97, 'w', 14,
                                      enc, 'lower', 'int', ch)
         for r in range(0, 1000):
             for ew in 'ew':
                 for enc in ENCODINGS:
-                    ch = 'arg' if enc in ('int', 'str') else 'explicit-vs-default'
+                    ch = ('arg' if enc in ('int', 'str', 'pad')
+                          else 'explicit-vs-default')
                     _check_construct(ctx, rep, pytrs, 154, 'n', r, ew, 14,
                                      'upper', enc, 'str', ch)
         for s in range(0, 100):
@@ -338,7 +345,8 @@ def run_shard(shard, ctx):
             tenc = rng.choice(ENCODINGS)
             renc = rng.choice(ENCODINGS)
             senc = rng.choice(SEC_ENCODINGS)
-            explicit = tenc in ('lower', 'upper') and renc in ('lower', 'upper')
+            explicit = (tenc in ('lower', 'upper', 'pad-lower')
+                        and renc in ('lower', 'upper', 'pad-lower'))
             ch = rng.choice(['arg', 'master'] +
                             (['explicit-vs-default'] if explicit else []))
             _check_construct(ctx, rep, pytrs, t, rng.choice('ns'), r,
